@@ -2,18 +2,18 @@ CONSTANTS
   IPs <- SmIPs
   Statics <- St2
   Ports = {1, 2}
-  NBuf = 2
+  NBuf = 1
   ArpSrcs <- SmArpSrcs
   Targets <- SmIPs
-  SetMacs <- SmSetMacs
+  SetMacs = {"SW"}
   ConsIPs = {"a"}
-  VLs = {FALSE}
-  Timeout = 7
+  VLs = {FALSE, TRUE}
+  Timeout = 1
   Period = 5
   Learn = TRUE
   Eat = TRUE
   Strict = FALSE
-  Deltas <- SmDeltas
+  Deltas = {1, 5}
   D = 3
 INIT Init
 NEXT Next
